@@ -6,7 +6,7 @@
    span precedence (D15) and of pad_left with a negative count.  Theorems quantified over `fx` hold
    for both. *)
 From RichModel Require Import Prelude Cells Wrap SpecWrap.
-From RichProofs Require Import CellsP WrapP WrapP2 WrapP3 WrapP4 WrapP5.
+From RichProofs Require Import CellsP WrapP WrapP2 WrapP3 WrapP4 WrapP5 WrapP6 WrapS3 WrapS6.
 
 Arguments plain {S}.
 
@@ -64,12 +64,26 @@ Example C02_keeps_full_nonvacuous :
 Proof. vm_compute. reflexivity. Qed.
 
 (* ------------------------------------------------------------------ (d) words are broken only when too long *)
-(* every break offset is the start of a word, or lies strictly inside a word that (together with the
-   indentation the scanner attaches to the first word of a line) is wider than the width *)
-Theorem C02_wrap_breaks_only_long_words : forall s w o, 2 <= w -> In o (divide_line s w true) ->
+(* at the level of Text.wrap's OUTPUT: a word (maximal non-whitespace run of a tab-expanded source line,
+   the first one measured together with the indentation before it) lies on two different output lines
+   only if it is wider than the width.  All strings, widths >= 2, every justify mode, both variants. *)
+Theorem C02_wrap_breaks_only_long_words : forall S seqb null add fx (t : text S) w j ts, 2 <= w ->
+  breaks_only_long_b w (map plain (expanded_lines S seqb fx t ts))
+                       (map plain (wrap S seqb null add fx t w j OV_FOLD ts false)) = true.
+Proof. exact wrap_breaks_only_long. Qed.
+Print Assumptions C02_wrap_breaks_only_long_words.
+
+(* the same fact about the break offsets: every offset is the start of a word, or lies strictly inside
+   a word that is wider than the width *)
+Theorem C02_divide_line_breaks_only_long : forall s w o, 2 <= w -> In o (divide_line s w true) ->
   exists st e wd, In (st, e, wd) (words s) /\ (o = st \/ (st < o < e /\ w < cell_len (rstrip wd))).
 Proof. exact divide_line_breaks_only_long. Qed.
-Print Assumptions C02_wrap_breaks_only_long_words.
+Print Assumptions C02_divide_line_breaks_only_long.
+
+Example C02_breaks_wrap_nonvacuous :
+  map plain (wrap Z Z.eqb 0 (fun a b => b) repaired (mkText (lit "   abcd ef") [] 0) 5 J_DEFAULT OV_FOLD 8 false)
+  = [lit "   ab"; lit "cd ef"].     (* "abcd" is 4 <= 5 wide but is broken: with its indentation it is 7 wide *)
+Proof. vm_compute. reflexivity. Qed.
 
 Example C02_breaks_nonvacuous :
   divide_line (lit "ab cdefgh ij") 4 true = [4; 8] /\ words (lit "ab cdefgh ij") = [(0, 3, lit "ab "); (3, 10, lit "cdefgh "); (10, 12, lit "ij")].
@@ -107,6 +121,32 @@ Example C02_divide_styles_nonvacuous :
   = [(lit "abcd", [(1, 4, 1); (3, 4, 2); (0, 4, 3)]); (lit "efgh", [(0, 3, 1); (0, 1, 2)])].
 Proof. vm_compute. reflexivity. Qed.
 
+(* STATEMENT (c) AT THE LEVEL OF Text.wrap, one theorem: for every overflow mode (fold, crop, ellipsis,
+   ignore), every justify mode (default, left, center, right, full), wrapped or no_wrap, every tab size,
+   every width >= 2, all strings and ALL span sets (empty, inverted, duplicated, coinciding, negative,
+   past the end): the styled non-whitespace characters of the output lines are, line by line and in
+   order, characters of the input with their code point and their normalised ordered covering styles
+   unchanged (provenance: each output line is a prefix of its source piece -- the whole piece when
+   folding or ignoring the width -- optionally followed by the one ellipsis character; everything else
+   that is inserted is whitespace).  Repaired Text.divide and pad_left; style equality decidable.
+   kept_mode: with no_wrap a fold line is cropped (tests/test_text.py::test_no_wrap_no_crop). *)
+Theorem C02_wrap_styles : forall S seqb null add fx (t : text S) w j ov ts nw,
+  (forall a b, seqb a b = true <-> a = b) -> fix_order fx = true -> fix_pad fx = true ->
+  2 <= w -> 0 <= ov <= 3 ->
+  styles_kept_b S seqb (kept_mode ov nw) (styled S seqb null t)
+    (map (styled S seqb null) (wrap S seqb null add fx t w j ov ts nw)) = true.
+Proof. intros S seqb null add fx t w j ov ts nw He Ho Hp Hw Hov. apply wrap_styles_all; assumption. Qed.
+Print Assumptions C02_wrap_styles.
+
+Example C02_wrap_styles_nonvacuous :   (* ellipsis + full justify + tabs + overlapping/duplicated spans *)
+  map (fun l => (plain l, spans l))
+      (wrap Z Z.eqb 0 (fun a b => b) repaired
+         (mkText (lit "ab cdefgh ijk") [(0, 13, 1); (1, 5, 2); (1, 5, 2); (4, 4, 3); (0, 5, 1)] 0) 5 J_LEFT OV_ELLIPSIS 8 false)
+  = [(lit "ab   ", [(0, 3, 1); (1, 3, 2); (1, 3, 2); (0, 3, 1)]);
+     (lit "cdef" ++ [8230], [(0, 5, 1); (0, 2, 2); (0, 2, 2); (1, 1, 3); (0, 2, 1)]);
+     (lit "ijk  ", [(0, 3, 1)])].
+Proof. vm_compute. reflexivity. Qed.
+
 (* rich 9.10.0 as found: the precedence of clipped spans lives in a dict keyed by the span VALUE; the
    clipped first span (0,5,red) collides with the third span and drags it below blue (DESIGN D15).
    Styles: 1 = red, 2 = blue; add = "later wins". *)
@@ -140,13 +180,3 @@ Example C02_wrap_styles_pad_repaired :
     [J_DEFAULT; J_LEFT; J_CENTER; J_RIGHT; J_FULL] = true.
 Proof. vm_compute. reflexivity. Qed.
 
-(* FULL STATEMENT of (c) at the level of Text.wrap (not proved as one theorem):
-     forall t w j ov ts nw, 2 <= w ->
-       styles_kept_b S seqb ov' (styled S seqb null t)
-          (map (styled S seqb null) (wrap S seqb null add repaired t w j ov ts nw)) = true
-   (ov' = ov, or crop when no_wrap cuts a fold line).  What is proved: C02_divide_styles -- the step
-   that decides precedence, used by wrap (break offsets), split (newlines, tabs, justify="full") --
-   for all inputs.  The remaining passes (rstrip_end/right_crop/truncate trim spans at the end of a line,
-   pad_left shifts all spans with the characters, expand_tabs/join re-add the base style as a span) are
-   not composed into one theorem; styles_kept_b is evaluated on the implementation's output for every
-   generated case instead (evidence: spec_checks_on_impl_output). *)
